@@ -402,6 +402,8 @@ pub struct Agg {
     pub violations: Vec<Violation>,
     pub real_pool_entries: u64,
     pub worker_restarts: u64,
+    pub confirmed_hangs_or_crashes: u64,
+    pub runs_skipped_after_hangs: u64,
 }
 
 struct Shared {
@@ -524,7 +526,17 @@ fn run_chunk(
         let mut g = shared.lock().unwrap();
         g.agg.worker_restarts += 1;
         match confirmed {
-            Some(v) => g.agg.violations.push(v),
+            Some(v) => {
+                g.agg.violations.push(v);
+                g.agg.confirmed_hangs_or_crashes += 1;
+                // every hang costs two watchdog periods: once a few are confirmed the verdict
+                // is settled, stop exploring instead of sitting through hundreds of them
+                if g.agg.confirmed_hangs_or_crashes >= 4 {
+                    let dropped: u64 = g.queue.iter().map(|c| c.1).sum();
+                    g.queue.clear();
+                    g.agg.runs_skipped_after_hangs += dropped;
+                }
+            }
             None => {
                 *g.agg
                     .probes
@@ -535,7 +547,7 @@ fn run_chunk(
         }
         // remainder of the slice
         let next = idx + 1;
-        if next < start + count {
+        if next < start + count && g.agg.confirmed_hangs_or_crashes < 4 {
             g.queue.push_front((next, start + count - next, profile));
         }
     }
@@ -770,14 +782,16 @@ pub fn cmd_check(a: &[String]) -> i32 {
         printed_known.len()
     );
     if agg.reports != runs {
-        eprintln!(
-            "HARNESS ERROR: {} of {} runs reported",
-            agg.reports, runs
-        );
-        // runs lost to a confirmed hang/crash are accounted for by their violation
-        if new_violations == 0 && agg.worker_restarts == 0 {
+        // runs lost to a hang/crash are accounted for by their violation (or by the
+        // unconfirmed_* probe); anything else is a harness error
+        if agg.worker_restarts == 0 {
+            eprintln!("HARNESS ERROR: {} of {} runs reported", agg.reports, runs);
             return 2;
         }
+        println!(
+            "note: {} of {} runs reported ({} workers lost to hangs/crashes, {} runs skipped after the 4th confirmed one)",
+            agg.reports, runs, agg.worker_restarts, agg.runs_skipped_after_hangs
+        );
     }
     if new_violations > 0 {
         1
